@@ -394,6 +394,73 @@ def run_shared(case):
     return out
 
 
+def run_error_close(case):
+    """the peer stops answering after `good` acknowledged transmissions; the application's error callback closes the driver from inside
+    the callback (what Crazyflie._link_error_cb does, on the radio thread itself): exactly one report, close() returns without raising,
+    the radio thread ends, and the same driver object connects again"""
+    import cflib.crtp.radiodriver as rd
+    from vlib.fakeradio import FakeDongle
+    out = Outcome(nontrivial=True)
+    out.feat('error-callback-closes-the-driver', 'N-%d' % case['N'])
+    state = {'n': 0, 'good': case['good']}
+    peer = SafelinkPeer(case['peer_supports'])
+
+    def answer(d, frame):
+        state['n'] += 1
+        if state['n'] > state['good']:
+            return b'\x00'
+        return b'\x01' + peer.receive(frame)
+    dongle = FakeDongle(answer=answer)
+    reports = []
+    problems = []
+    with RadioEnv(lambda: [dongle]):
+        rd.set_retries_before_disconnect(case['N'])
+        drv = rd.RadioDriver()
+        for session in range(2):
+            done = threading.Event()
+
+            def on_error(msg, drv=drv, done=done, session=session):
+                reports.append((session, msg))
+                try:
+                    drv.close()
+                except BaseException as e:  # noqa
+                    problems.append('session %d: close() from inside the error callback raised %r' % (session, e))
+                done.set()
+            state['n'] = 0
+            try:
+                drv.connect('radio://0/80/2M', None, on_error)
+            except Exception as e:  # noqa
+                out.fail('linkerror:cannot-connect-again', 'N=%d good=%d: connect number %d raised %r' % (case['N'], case['good'], session + 1, e))
+                break
+            th = drv._thread
+            if not done.wait(20):
+                out.fail('linkerror:count:never-reported', 'N=%d good=%d session %d: the peer went silent, no error reported within 20 s' % (case['N'], case['good'], session))
+                th._sp = True
+                break
+            th.join(10)
+            if th.is_alive():
+                out.fail('radio:thread-alive-after-close', 'N=%d good=%d session %d: radio thread still running after close() from the error callback' % (
+                    case['N'], case['good'], session))
+                th._sp = True
+                break
+            if problems:
+                break           # close() did not get through: the shared radio is still held, nothing more to learn from a second session
+            _wait_closed()
+        if problems:
+            out.fail('radio:close-raised-in-error-callback', '; '.join(problems[:2]))
+        per = [sum(1 for s_, _ in reports if s_ == k) for k in range(2)]
+        if not out.violations and per != [1, 1]:
+            out.fail('linkerror:count', 'N=%d good=%d: error reports per session %r, expected one each' % (case['N'], case['good'], per))
+    return out
+
+
+def error_close_cases(tier):
+    for N in (1, 3):
+        for good in (0, 4, 15):
+            for supports in (True, False):
+                yield {'N': N, 'good': good, 'peer_supports': supports}
+
+
 def shared_cases(tier):
     lossless = [['o']]
     lossy = [['o', 'o', 'u', 'o', 'a'], ['o', 'a', 'o', 'o', 'u', 'u', 'o']]
@@ -441,5 +508,6 @@ def subchecks(tier):
         Sub('exhaustive', run_link, cases=exhaustive_cases, distinct_by_construction=True),
         Sub('random', run_link, strategy=random_case(), examples={'quick': 400, 'thorough': 20000}),
         Sub('shared-dongle', run_shared, cases=shared_cases, distinct_by_construction=True),
+        Sub('error-callback-closes', run_error_close, cases=error_close_cases, distinct_by_construction=True),
         Sub('shared-dongle-random', run_shared, strategy=shared_case(), examples={'quick': 24, 'thorough': 600}),
     ]
